@@ -111,7 +111,10 @@ def run_api(shard: dict, res: Res) -> None:
             s = gen_string(rng, ref)
             check_pair(res, table, ref, entries, s)
             if ti == 0 and si < 2:
-                res.sample({"kind": "api", "table": text[:200], "string": s, "bytes": ref.to_bytes(s).hex()})
+                try:
+                    res.sample({"kind": "api", "table": text[:200], "string": s, "bytes": ref.to_bytes(s).hex()})
+                except Unspecified:
+                    pass
 
 
 def check_pair(res: Res, table, ref: RefTable, entries, s: str) -> None:
